@@ -625,6 +625,18 @@ func runC04(r *Run, rng *Rng, thorough bool) {
 		if !res.accepted {
 			return
 		}
+		// the per-type decoder takes the profile claim from the token, not from the object it decodes into: the same
+		// conformant profile-2 token without key 265, decoded into a fresh profile-2 claims-set (whose factory has
+		// set the profile), lacks its mandatory profile claim
+		if w.Declared == 2 && lookupInt(tc.n, 265) != nil && len(tc.extra) == 0 {
+			t2 := tc.n.clone()
+			delKey(t2, 265)
+			c2, _ := psa.NewClaims(psa.Profile2Name)
+			var uerr, verr error
+			if pan, _ := safely(func() { uerr = c2.(*psa.P2Claims).UnmarshalCBOR(t2.Bytes()); verr = c2.Validate() }); !pan && uerr == nil && verr == nil {
+				r.Fail("accept-iff-conformant", "a profile-2 token without its profile claim validates after P2Claims.UnmarshalCBOR into a fresh claims-set: "+trunc(t2.String(), 200))
+			}
+		}
 		// every getter returns exactly the value carried on the wire
 		for g, gr := range res.obs.G {
 			st := specGetter(w.Desc, g)
